@@ -46,6 +46,7 @@ def gen_inputs(ctx):
         nodes.append(mk_node(rng, ks[3], d, 0 if d == 0 else 7, bytes(4) if d == 0 else pfps[2], ccs[2], "main"))
     for i in idxs:
         nodes.append(mk_node(rng, ks[4], 3, i, pfps[2], ccs[2], "test"))
+    nodes.append(mk_node(rng, ks[2], 0, 7, pfps[2], ccs[2], "main"))           # depth 0 but a child number: not a master
     nodes.append(mk_node(rng, ks[0], 0, 0, bytes(4), ccs[0], "main"))          # master, k = 1
     nodes.append(mk_node(rng, ks[1], 0, 0, pfps[1], ccs[1], "test"))           # master-shaped with a stray fingerprint
     for node in nodes:
